@@ -83,6 +83,21 @@ def layout_form(L, variant=0, seed=0):
         target()
     for k in reversed(L["c"]):
         end(k)
+    # the same reference-bearing guidance text on a second referrer at the top level (texts that go through itext must be
+    # resolved per referrer, not per text) -- only when the target is reachable from the top level by an absolute path
+    add(type="text", name="top_same", label="TS", guidance_hint=f"guide {t}")
+    # names of repeats that nothing references by name are legal question names elsewhere in the form
+    referenced = set()
+    if tgt_in_repeat:
+        chain = [(k, f"c{i}") for i, k in enumerate(L["c"], 1)] + [(k, f"b{i}") for i, k in enumerate(L["tb"], 1)]
+        referenced.add([n for k, n in chain if k == "r"][-1])
+    reps = [f"c{i}" for i, k in enumerate(L["c"], 1) if k == "r"] + [f"a{i}" for i, k in enumerate(L["rb"], 1) if k == "r"] + [f"b{i}" for i, k in enumerate(L["tb"], 1) if k == "r"]
+    dups = [n for n in reps if n not in referenced]
+    if dups and variant % 2 == 0:
+        begin("g", "homonyms")
+        for n in dups:
+            add(type="note", name=n, label=f"same name as repeat {n}")
+        end("g")
     survey = {"name": "survey", "header": cols, "rows": [[r.get(c) for c in cols] for r in rows]}
     choices = {"name": "choices", "header": ["list_name", "name", "label", "grp"],
                "rows": [["L", "l1", "One", "1"], ["L", "l2", "Two", "2"]]}
@@ -181,6 +196,14 @@ def run(rep):
     cans.append(("absolute_where_relative_required", t2))
     t3 = [x for x in copy.deepcopy(base["trace"]) if not (x["ev"] == "ref" and x["name"] == "target")]
     cans.append(("ref_events_removed", t3))
+    t4 = copy.deepcopy(base["trace"])
+    o = next(o for o in t4[-1]["outrefs"] if not o["e"]["abs"])
+    o["e"]["up"] += 1
+    cans.append(("emitted_path_one_step_off", t4))
+    t5 = copy.deepcopy(base["trace"])
+    o = next(o for o in t5[-1]["outrefs"] if o["e"]["path"] and o["e"]["path"][-1] == "target")
+    o["e"]["path"][-1] = "referrer"
+    cans.append(("emitted_path_reaches_another_question", t5))
     a, info = tlc.validate_traces(_rp.TRACE_MOD, _rp.TRACE_CFG, [c[1] for c in cans] + [base["trace"]], shards=1, env={"PROP": PROP}, tag="canary")
     wrongly = [cans[i][0] for i in a if i < len(cans)]
     if wrongly or len(cans) not in a:
